@@ -239,7 +239,7 @@ func (p *c01) Init(tier string, seed int64) {
 		lads := []lad{
 			{"(", "1", ")"}, {"[", "1", "]"}, {"{'a':", "1", "}"}, {"f(", "1", ")"}, {"-", "1", ""}, {"not ", "a", ""},
 			{"a[", "1", "]"}, {"(", "", ""}, {"[", "", ""}, {"", "1", ")"}, {"a ? ", "b", " : c"}, {"1 + ", "1", ""},
-			{"\"#{", "a", "}\""},
+			{"\"#{", "a", "}\""}, {"\"#{", "", ""}, {"\"#{ '", "", ""}, {"\"x#{(", "", ""}, {"", "a", "}\""}, {"\"#{\"", "", ""}, {"\"#{", "", "\""},
 		}
 		tags := []lad{
 			{"{% if a %}", "x", "{% endif %}"}, {"{% for i in a %}", "x", "{% endfor %}"}, {"{% block b %}", "x", "{% endblock %}"},
@@ -391,7 +391,7 @@ func fragShape(s string) string {
 }
 
 func (p *c01) Rule() string {
-	return "inputs: every byte prefix of the seed corpus (repo tests/examples/testdata + hand-written, one per tag/operator); single-fragment deletion, duplication and insertion at every fragment boundary of every corpus template; bounded-exhaustive sequences over a 26-fragment hostile alphabet (length<=3 quick, <=5 thorough); seeded random byte / delimiter-alphabet / fragment strings; hostile bytes (NUL, 0xFF, truncated UTF-8, CR, CRLF, FF, VT, ESC, DEL, NEL, NBSP, BOM, ZWSP, U+2028/9) substituted at corpus positions; every byte value 0..255 substituted and inserted at every position of 8 short templates (one per tokeniser mode); every single-fragment mutant again inside 11 wrappers (embed body, embed block, macro, block, capture, verbatim, comment, interpolation, if/else, for, filter); nesting ladders to depth 200 (quick) / 9000 (thorough). Each input goes through parse.Parse, core Env.Parse and Twig Env.Parse (3 evaluations). Non-trivial = contains an opening delimiter; distinct = (error kind with numbers stripped, first 12 fragment classes)."
+	return "inputs: every byte prefix of the seed corpus (repo tests/examples/testdata + hand-written, one per tag/operator); single-fragment deletion, duplication and insertion at every fragment boundary of every corpus template; bounded-exhaustive sequences over a 26-fragment hostile alphabet (length<=3 quick, <=5 thorough); seeded random byte / delimiter-alphabet / fragment strings; hostile bytes (NUL, 0xFF, truncated UTF-8, CR, CRLF, FF, VT, ESC, DEL, NEL, NBSP, BOM, ZWSP, U+2028/9) substituted at corpus positions; every byte value 0..255 substituted and inserted at every position of 8 short templates (one per tokeniser mode); every single-fragment mutant again inside 11 wrappers (embed body, embed block, macro, block, capture, verbatim, comment, interpolation, if/else, for, filter); nesting ladders (balanced, open-only and close-only, incl. strings nested in interpolations) to depth 200 (quick) / 9000 (thorough). Each input goes through parse.Parse, core Env.Parse and Twig Env.Parse (3 evaluations). Non-trivial = contains an opening delimiter; distinct = (error kind with numbers stripped, first 12 fragment classes)."
 }
 
 func (p *c01) Assumptions() []string {
